@@ -191,6 +191,17 @@ op("urem64", 64, 2, "{r} = {1} ? {0} % {1} : {1};", only64=True)
 op("sdiv64", 64, 2, "{r} = ({1} == 0ull || ({0} == 0x8000000000000000ull && {1} == 0xffffffffffffffffull)) ? {0} : "
                     "(uint64_t)((int64_t){0} / (int64_t){1});", only64=True)
 op("umulh64", 64, 2, "{r} = (uint64_t)(((unsigned __int128){0} * (unsigned __int128){1}) >> 64);", only64=True)
+# 128-bit arithmetic and comparisons: carry / borrow chains with flag-setting forms (ADCS, SBCS, NGCS)
+_U128 = "(((unsigned __int128){%d} << 64) | (unsigned __int128){%d})"
+op("ltu128", 32, 4, "{r} = (uint32_t)(%s < %s);" % (_U128 % (0, 1), _U128 % (2, 3)), argty=[64, 64, 64, 64], only64=True)
+op("lts128", 32, 4, "{r} = (uint32_t)((__int128)%s < (__int128)%s);" % (_U128 % (0, 1), _U128 % (2, 3)),
+   argty=[64, 64, 64, 64], only64=True)
+op("ges128", 32, 4, "{r} = (uint32_t)((__int128)%s >= (__int128)%s);" % (_U128 % (0, 1), _U128 % (2, 3)),
+   argty=[64, 64, 64, 64], only64=True)
+op("sub128hi", 64, 4, "{r} = (uint64_t)((%s - %s) >> 64);" % (_U128 % (0, 1), _U128 % (2, 3)), only64=True)
+op("add128hi", 64, 4, "{r} = (uint64_t)((%s + %s) >> 64);" % (_U128 % (0, 1), _U128 % (2, 3)), only64=True)
+op("neg128hi", 64, 2, "{r} = (uint64_t)((((unsigned __int128)0) - %s) >> 64);" % (_U128 % (0, 1)), only64=True)
+op("sel_lts128", 64, 4, "{r} = (__int128)%s < (__int128)%s ? {0} : {3};" % (_U128 % (0, 1), _U128 % (2, 3)), only64=True)
 op("ubfx64", 64, 1, "{r} = ({0} >> {tl0}) & {tm0}ull;", lits=1)
 op("ld_u64", 64, 1, "{r} = m->q[{0} & 7u];", argty=[32])
 op("st_u64", 64, 2, "m->q[{0} & 7u] = {1}; {r} = {1} + 1ull;", argty=[32, 64])
@@ -298,7 +309,8 @@ class CGen(object):
         pool = [o for o in OPS if allow64ops or not o.only64]
         # register-divisor divisions become library calls on ARM without hardware divide
         # (the function is then rejected there): keep them, but rare
-        wts = [0.25 if o.name in ('udiv32', 'urem32', 'sdiv32', 'srem32') else 1.0 for o in pool]
+        wts = [0.25 if o.name in ('udiv32', 'urem32', 'sdiv32', 'srem32') else
+               2.0 if o.name.endswith(('128', '128hi')) else 1.0 for o in pool]
         for i in range(nstmts):
             for _ in range(50):
                 o = r.choices(pool, wts)[0]
